@@ -20,11 +20,11 @@ MANIFEST = dict(
          'every run equal the model; for any (dirty) memory a RawValue reads as its initialiser followed by zeros, '
          'RawArray(n) as zeros, RawArray(init) as the initialiser; creating an object or storing through one changes '
          'no byte of any other live object (from the C14 heap invariant, all histories); a rebuilt object is the same '
-         '(block,size) and stores are read back; for any number of threads, iterations and any interleaving, '
+         '(block,size) with the same lock and stores are read back; every branch of synchronized() hands the given lock to the wrapper; for any number of threads, iterations and any interleaving, '
          '`with v.get_lock(): v.value += 1` loses no update, is mutually exclusive and cannot deadlock, while the '
          'same without the outer lock can lose an update (witness). Correspondence of the real sharedctypes with the '
          'model byte by byte on create/dirty/drop/recycle histories over all type codes, structures with padding, '
-         'array lengths and initialisers; recorded lock traces of the real Synchronized wrappers; thorough: real '
+         'array lengths and initialisers; recorded lock traces of the real Synchronized wrappers; the lock given is the lock used for every wrapper class, also after a pickle round trip in spawn mode (same semaphore, same storage); thorough: real '
          'processes (visibility both ways, locked increments).',
     note='Trusted: Coq kernel, translate/kernels/sharedmem.py, harness; ctypes\' own encoding of values (the expected '
          'bytes are those of an ordinary private ctypes object); MAP_SHARED visibility and cache coherence (kernel/'
@@ -435,6 +435,57 @@ def traces(res):
                 rule='recorded Acq/Rel/Read/Write traces of the real Synchronized wrappers')
 
 
+def judge_lock_record(r):
+    """None or (signature, text) for one record of the driver's `locks` mode"""
+    tag = '%s, lock=%s' % (r['kind'], r.get('lock', 'default'))
+    if 'exc' in r:
+        return ('C15:raised', '%s check on %s raised %s' % (r['check'], tag, r['exc']))
+    if r['check'] == 'explicit-lock':
+        if r['cls'] != r['want_cls'] or r['sync_cls'] != r['want_cls']:
+            return ('C15:wrong-wrapper-class', '%s: wrapper class %s/%s, expected %s' % (tag, r['cls'], r['sync_cls'], r['want_cls']))
+        if not (r['same'] and r['bound']):
+            return ('C15:given-lock-not-used', '%s: the wrapper returned by Value/Array(..., lock=L) does not use L '
+                    '(get_lock() is L: %s; acquire/release bound to L: %s) -- updates "under the object\'s lock" do not exclude '
+                    'holders of L' % (tag, r['same'], r['bound']))
+        if not (r['sync_same'] and r['sync_pos_same']):
+            return ('C15:given-lock-not-used', '%s: synchronized(obj, lock=L).get_lock() is not L (keyword: %s, positional: %s)'
+                    % (tag, r['sync_same'], r['sync_pos_same']))
+    elif r['check'] == 'default-lock':
+        if {r['true_type'], r['none_type'], r['sync_none_type']} != {'RLock'}:
+            return ('C15:default-lock-not-recursive', '%s: lock=True/None/synchronized() give %s/%s/%s, not an RLock'
+                    % (r['kind'], r['true_type'], r['none_type'], r['sync_none_type']))
+        if not r['false_is_raw']:
+            return ('C15:lock-false-not-raw', '%s: lock=False does not return the raw ctypes object' % r['kind'])
+    elif r['check'] == 'pickle-roundtrip':
+        if r['cls'] != r['want_cls'] or r['lock_type'] != r['lock_type2']:
+            return ('C15:wrong-wrapper-class', '%s: rebuilt as %s with a %s (was %s with a %s)'
+                    % (tag, r['cls'], r['lock_type2'], r['want_cls'], r['lock_type']))
+        if r['sem_name'] != r['sem_name2'] or not r['excluded_while_held'] or not r['free_after_release']:
+            return ('C15:rebuilt-lock-not-shared',
+                    '%s: after a pickle round trip (as for a spawn/forkserver child) the wrapper\'s lock is semaphore %s, the '
+                    'original\'s %s; rebuilt lock excluded while the original is held: %s -- locked updates from a child '
+                    'would be lost' % (tag, r['sem_name2'], r['sem_name'], r['excluded_while_held']))
+        if r['state'] != r['state2'] or r['bytes1'] != r['bytes2']:
+            return ('C15:rebuild-other-storage', '%s: rebuilt wrapper addresses %s / reads %s, the original %s / %s'
+                    % (tag, r['state2'], r['bytes2'], r['state'], r['bytes1']))
+    return None
+
+
+def locks(res):
+    """the lock handed to Value/Array/synchronized is the lock the wrapper uses -- for every wrapper class,
+    explicit Lock/RLock/foreign lock object, and after a pickle round trip in spawn mode"""
+    outs = core.run_driver('sharedmem_driver.py', dict(mode='locks'))
+    for r in outs:
+        m = judge_lock_record(r)
+        if m:
+            res.alarms.append(dict(signature=m[0], what=m[1], replay=dict(lock_check=r)))
+    kinds = sorted({r['kind'] for r in outs})
+    res.add_cov(evaluations=len(outs), distinct=len(outs), traces=len(outs), lock_identity_checks=len(outs),
+                lock_identity_kinds=kinds,
+                rule='lock identity: every wrapper class x {Lock, RLock, foreign lock, default} x {direct, synchronized(), '
+                     'pickle round trip under the spawning flag}')
+
+
 def procs(res):
     out = core.run_driver('sharedmem_driver.py', dict(mode='procs', methods=['fork', 'spawn', 'forkserver'], nproc=4, n=2500),
                           timeout=900)
@@ -467,6 +518,7 @@ def run(res):
         n = max(n, 1500)
     correspond(res, n)
     traces(res)
+    locks(res)
     if res.tier != 'quick':
         rng = random.Random(res.seed * 13 + 1515)
         cases = [gen_case(rng, real=True) for _ in range(200)]
@@ -481,11 +533,21 @@ def run(res):
         'MAP_SHARED memory written in one process is visible in another (validated by real processes in the thorough tier, not proved)',
         'the BufferWrapper finaliser runs when the last reference is dropped (CPython reference counting)',
         'frees are valid (each wrapper frees its own block once): inherited from C14',
+        'all updaters use the same lock object/semaphore: checked on the real wrappers (lock identity, pickle round trip), the atomicity theorem has one lock',
     ]
 
 
 def replay(path):
     d = json.load(open(path))
+    if 'replay' in d and 'lock_check' in d['replay']:
+        old = d['replay']['lock_check']
+        outs = core.run_driver('sharedmem_driver.py', dict(mode='locks'))
+        now = [r for r in outs if (r['check'], r['kind'], r.get('lock')) == (old['check'], old['kind'], old.get('lock'))]
+        print('recorded:', json.dumps(old))
+        print('implementation now:', json.dumps(now))
+        bad = [judge_lock_record(r) for r in now]
+        print('monitor:', [b for b in bad if b] or 'property holds on this check')
+        return 1 if any(bad) else 0
     if 'replay' not in d or 'case' not in d['replay']:
         print(json.dumps(d.get('broken', d.get('replay', d)))[:3000])
         return 1
